@@ -1667,6 +1667,198 @@ def run_vanishing(ck):
                                       "seconds": round(time.time() - t0, 1)}
 
 
+def scenario_lock_timeout(s, spec):
+    """H3 + fake network, virtual time: the object is busy in a 2 s method; a client proxy calls lock(timeout=t)
+    meanwhile (object free / locked by another client that unlocks at 0.5 s / locked for good); when everything is
+    idle again, what lock() REPORTED is compared with the real state."""
+    import threading as real_threading
+    import logging
+    import dsched as _ds
+    logging.disable(logging.CRITICAL)
+    from qmi.core.context import QMI_Context
+    from qmi.core.config_defs import CfgQmi, CfgContext
+    from qmi.core.rpc import QMI_RpcObject, rpc_method
+
+    class Gate(QMI_RpcObject):
+        def __init__(self, ctx, name):
+            super().__init__(ctx, name)
+            self.log = []
+
+        @rpc_method
+        def hold(self, dur):
+            _ds.FAKE_TIME.sleep(dur)
+            return "held"
+
+        @rpc_method
+        def bump(self, x):
+            self.log.append(x)
+            return x
+    cfg = CfgQmi(contexts={"srv": CfgContext(tcp_server_port=5001)})
+    srv = QMI_Context("srv", cfg)
+    srv.start()
+    p3 = srv.make_rpc_object("obj", Gate)          # third party: never locks
+    th = srv._rpc_object_map["obj"]._rpc_thread
+    obj = th._rpc_object
+    c1 = QMI_Context("cli", cfg)
+    c1.start()
+    c1.connect_to_peer("srv", "127.0.0.1:5001")
+    c2 = QMI_Context("oth", cfg)
+    c2.start()
+    c2.connect_to_peer("srv", "127.0.0.1:5001")
+    pr, po = c1.get_rpc_object_by_name("srv.obj"), c2.get_rpc_object_by_name("srv.obj")
+    gen = []
+    orig = c1.make_unique_token
+
+    def rec(prefix="$lock_"):
+        t = orig(prefix=prefix)
+        gen.append((t[0], t[1]))
+        return t
+    c1.make_unique_token = rec
+
+    def owner():
+        t = th._locking_token
+        return None if t is None else (t[0], t[1])
+
+    def tk(p):
+        return None if p._lock_token is None else (p._lock_token[0], p._lock_token[1])
+    out = {"spec": spec, "setup_ok": True}
+    state = spec["state"]
+    if state != "free":
+        out["setup_ok"] = po.lock()
+    holder = p3 if state == "free" else po
+    fut = holder.rpc_nonblocking.hold(2.0)
+    _ds.FAKE_TIME.sleep(0.1)
+    rep = {}
+
+    def requester():
+        try:
+            rep["r"] = pr.lock(timeout=spec["t"], lock_token="x") if spec["custom"] else pr.lock(timeout=spec["t"])
+        except BaseException as e:  # noqa
+            rep["exc"] = type(e).__name__
+    tr = real_threading.Thread(target=requester)
+    tr.start()
+    if state == "other-unlocks":
+        _ds.FAKE_TIME.sleep(0.4)
+        un = {}
+        tu = real_threading.Thread(target=lambda: un.setdefault("r", po.unlock()))
+        tu.start()
+    _ds.FAKE_TIME.sleep(8.0)             # everything idle: hold done, every queued request handled
+    tr.join()
+    if state == "other-unlocks":
+        tu.join()
+        out["other_unlock"] = un.get("r")
+    try:
+        out["hold"] = fut.wait(5.0)
+    except BaseException as e:  # noqa
+        out["hold"] = "EXC " + type(e).__name__
+    out["reported"] = rep.get("r") if "r" in rep else "EXC " + str(rep.get("exc"))
+    out["sent_tokens"] = [("cli", "x")] if spec["custom"] else list(gen)
+    out["requester_token"], out["other_token"] = tk(pr), tk(po)
+    out["queue_len"] = len(th._fifo)
+    out["owner"] = owner()
+    ob = {}
+    try:
+        ob["is_locked"] = pr.is_locked()
+        n0 = len(obj.log)
+        try:
+            p3.bump(7)
+            ob["third_call"] = True
+        except BaseException:  # noqa
+            ob["third_call"] = False
+        ob["third_ran"] = len(obj.log) - n0
+        n0 = len(obj.log)
+        try:
+            pr.bump(8)
+            ob["requester_call"] = True
+        except BaseException:  # noqa
+            ob["requester_call"] = False
+        ob["requester_ran"] = len(obj.log) - n0
+        ob["owner_end"] = owner()
+    except BaseException as e:  # noqa
+        ob["exc"] = repr(e)[:200]
+    out["probe"] = ob
+    for c in (c2, c1, srv):
+        try:
+            c.stop()
+        except BaseException:  # noqa
+            pass
+    return out
+
+
+def oracle_lock_timeout(ob):
+    sp = ob["spec"]
+    where = "lock(timeout=%s%s) while the object is busy for 2 s and %s" % (
+        sp["t"], ", lock_token='x'" if sp["custom"] else "",
+        {"free": "unlocked", "other-unlocks": "locked by another client that unlocks 0.5 s later",
+         "other-keeps": "locked by another client for good"}[sp["state"]])
+    if not ob["setup_ok"]:
+        return ("lock-timeout:setup", where + ": setup lock not granted")
+    owner = None if ob["owner"] is None else tuple(ob["owner"])
+    rt = None if ob["requester_token"] is None else tuple(ob["requester_token"])
+    ot = None if ob["other_token"] is None else tuple(ob["other_token"])
+    sent = [tuple(t) for t in ob["sent_tokens"]]
+    rep = ob["reported"]
+    if rep not in (True, False):
+        return ("lock-timeout:exception", where + ": lock() raised %r" % (rep,))
+    if owner is not None and owner not in (rt, ot):
+        return ("mutex:locked-by-a-token-no-proxy-holds",
+                where + ": lock() reported %r; when everything is idle the object is locked by %r, a token no live proxy "
+                "remembers (requester remembers %r, the other client %r) — every proxy is refused, only force_unlock "
+                "helps" % (rep, owner, rt, ot))
+    if rep is True and not (owner is not None and owner == rt):
+        return ("proxy:lock-timeout-reported-true-not-owner", where + ": reported True, owner %r, requester remembers %r" % (owner, rt))
+    if rep is False and (owner in sent or rt in sent):
+        return ("proxy:lock-timeout-reported-false-but-owns", where + ": reported False (denied), yet afterwards the owner "
+                "is %r and the requester remembers %r (tokens it asked with: %r)" % (owner, rt, sent))
+    if ob["queue_len"] != 0:
+        return ("lock-timeout:requests-left-in-queue", where + ": %d request(s) still queued at idle" % ob["queue_len"])
+    pb = ob["probe"]
+    if "exc" in pb:
+        return ("lock-timeout:probe-exception", where + ": " + pb["exc"])
+    if pb["is_locked"] != (owner is not None):
+        return ("query:untruthful:after-lock-timeout", where + ": is_locked() = %r, owner %r" % (pb["is_locked"], owner))
+    if pb["third_call"] != (owner is None) or pb["third_ran"] != (1 if owner is None else 0):
+        return ("gate:after-lock-timeout:third", where + ": a third proxy's call executed=%r while the owner is %r" % (pb["third_call"], owner))
+    should = owner is None or owner == rt
+    if pb["requester_call"] != should or pb["requester_ran"] != (1 if should else 0):
+        return ("gate:after-lock-timeout:requester", where + ": the requester's call executed=%r; owner %r, its token %r"
+                % (pb["requester_call"], owner, rt))
+    # what the pinned semantics must report: every ACQUIRE is answered before lock() looks at the clock again
+    if sp["state"] in ("free", "other-unlocks") and rep is not True and sp["state"] == "free":
+        return ("proxy:lock-timeout-free-object-denied", where + ": the object was unlocked all the time, lock() reported False")
+    return None
+
+
+def run_lock_timeout(ck):
+    import dsched
+    import qmi.core.context  # noqa
+    import qmi.core.rpc  # noqa
+    import qmi.core.messaging  # noqa
+    specs = [{"t": t, "state": st, "custom": cu} for t in (0.05, 0.3, 1.0, 3.0)
+             for st in ("free", "other-unlocks", "other-keeps") for cu in (False, True)]
+    reps = 1 if ck.tier == "quick" else 8
+    jobs = [(scenario_lock_timeout, (sp,), dict(strategy="fifo" if k == 0 else "random", seed=ck.seed * 977 + 31 * k + i))
+            for k in range(reps) for i, sp in enumerate(specs)]
+    t0 = time.time()
+    for i, res in enumerate(dsched.run_forked(jobs, nproc=16, wall_timeout=60)):
+        sp = jobs[i][1][0]
+        ck.note_case(("lock-timeout", tuple(sorted(sp.items())), tuple(res.get("choices") or ())), True)
+        ck.count("lock-timeout:" + res["status"])
+        ck.count("lock-timeout:state:" + sp["state"])
+        rep = {"kind": "lock-timeout", "spec": sp, "schedule": res.get("choices")}
+        if res["status"] != "ok":
+            ck.report("lock-timeout:scenario-%s" % res["status"], "scenario lock(timeout) on a busy object did not finish "
+                      "(%s): %s" % (res["status"], str(res.get("trace") or res.get("info"))[:300]), rep)
+            continue
+        ob = res["obs"]
+        ck.count("lock-timeout:reported:%r" % (ob["reported"],))
+        why = oracle_lock_timeout(ob)
+        if why:
+            ck.report(why[0], "C04 fails on the implementation (real contexts, fake network, virtual time): " + why[1],
+                      dict(rep, impl={k: v for k, v in ob.items() if k != "spec"}))
+    ck.coverage["lock_timeout"] = {"scenarios": len(jobs), "seconds": round(time.time() - t0, 1)}
+
+
 def run_concurrent_tokens(ck):
     import dsched
     import qmi.core.context  # noqa
@@ -1694,6 +1886,7 @@ def run(ck):
     ck.build_theory(THEORY)
     run_concurrent_tokens(ck)
     run_vanishing(ck)
+    run_lock_timeout(ck)
     ck.trusted = [
         "Coq 8.16.1 kernel (vm_compute evaluates the model on the cases; no native_compute)",
         "hand-written model theories/C04/Model.v of _RpcThread._handle_lock_rpc_request/_handle_method_rpc_request, "
@@ -1714,7 +1907,8 @@ def run(ck):
     ck.assumptions = [
         "custom tokens do not start with '$lock_' and are not the reply placeholders '__ACCESS_DENIED__' / "
         "'__OBJECT_LOCKED__' in the object's own context (a user typing those collides on purpose)",
-        "lock() is exercised with timeout=0 (single attempt); the retry loop only repeats the same request",
+        "lock(timeout>0) is exercised on a busy object under virtual time (24 situations); elsewhere lock() is used with "
+        "timeout=0 (single attempt)",
         "reading of the property for undeliverable replies: 'released only by an unlock carrying the owner's token or by "
         "force-unlock' leaves no room for taking a lock back because the requester vanished — neither an idempotent "
         "re-grant nor a fresh grant; the pinned code keeps the lock in both cases and that is the only accepted outcome",
@@ -2003,6 +2197,23 @@ def _tup(x):
 
 
 def replay(rep):
+    if rep["case"].get("kind") == "lock-timeout":
+        import dsched
+        import qmi.core.context  # noqa
+        import qmi.core.rpc  # noqa
+        import qmi.core.messaging  # noqa
+        c = rep["case"]
+        res = dsched.run_forked([(scenario_lock_timeout, (c["spec"],),
+                                  dict(strategy="replay", schedule=list(c.get("schedule") or [])))], nproc=1, wall_timeout=60)[0]
+        print("status:", res["status"])
+        if res["status"] != "ok":
+            print(str(res.get("trace") or res.get("info"))[:600])
+            return 1
+        for k, v in res["obs"].items():
+            print("  %-16s %r" % (k, v))
+        why = oracle_lock_timeout(res["obs"])
+        print("oracle:", ("%s — %s" % why) if why else "property holds on this case")
+        return 1 if why else 0
     if rep["case"].get("kind") == "vanish":
         import dsched
         import qmi.core.context  # noqa
